@@ -219,12 +219,24 @@ class Node(ModelElement):
         _, node_properties = self.topo.graph_model.get_node_properties(node_id=self.node_id)
         node_sliver = self.topo.graph_model.node_sliver_from_graph_properties_dict(node_properties)
         for rp in req_props:
-            if not node_sliver.property_exists(rp) or \
-                    (node_sliver.property_exists(rp) and not node_sliver.get_property(rp)):
+            if not self.__property_is_set(node_sliver, rp):
                 raise TopologyException(f"Node of type {nstype} must have property {rp} set")
         for fp in forb_props:
-            if node_sliver.property_exists(fp) and node_sliver.get_property(fp):
+            if self.__property_is_set(node_sliver, fp):
                 raise TopologyException(f"Node of type {nstype} must NOT have property {fp} set")
+
+    def __property_is_set(self, node_sliver: NodeSliver, pname: str) -> bool:
+        """
+        Is a property named in NodeConstraints set on this node. Components are not part of the
+        node's own property dictionary (the sliver built from it never carries
+        attached_components_info), so they are looked up in the graph.
+        :param node_sliver: sliver built from the properties of this node
+        :param pname:
+        :return:
+        """
+        if pname == 'attached_components_info':
+            return len(self.components) > 0
+        return node_sliver.property_exists(pname) and bool(node_sliver.get_property(pname))
 
     def get_sliver(self) -> NodeSliver:
         """
